@@ -1,6 +1,7 @@
 (* C11 — breakpoints always stop execution before the marked instruction. *)
 From Coq Require Import List.
-From Lace Require Import Word Machine Isa Vm Asm Dbg DbgProofs DbgRef AsmBreaks.
+From Lace Require Import Word Machine Isa Vm Asm Dbg DbgProofs DbgRef AsmBreaks Cli.
+From Lace Require AsmCount DbgBreaks.
 From Lace Require Examples.
 Open Scope N_scope.
 
@@ -100,6 +101,42 @@ Theorem C11_break_bounds : forall toks skip count c,
   In c (marks skip toks count) -> count <= c <= count_after skip toks count.
 Proof. exact marks_bounds. Qed.
 Print Assumptions C11_break_bounds.
+
+(** `.break`, end to end (DbgBreaks.v).  For every source the assembler accepts and the loader loads, the table the
+    debugger starts with - the assembler's table relocated by the load address (`Breakpoints::with_orig`: `address += orig`
+    on 16-bit numbers) - holds exactly the addresses origin + m, m the number of statements in front of a `.break`; the
+    addition never leaves 16 bits, because a mark names a word of the image or the one just behind it (one word per
+    statement: AsmCount.v) and the loader has checked that image and implicit HALT fit below x10000. *)
+Theorem C11_break_relocated : forall feat src inp toks im sym st,
+  preprocess feat (S (length src)) src 0 nil = Ok toks ->
+  assemble feat nil src = (Ok im, sym) ->
+  from_raw (raw_of_image im) inp = Loaded st ->
+  s_pc st = image_orig im /\
+  (forall m, In m (marks 0 toks 0) -> m <= N.of_nat (length (i_words im)) /\ image_orig im + m < W) /\
+  (forall a, bp_get (with_orig (i_bps im) (s_pc st)) a <> None <->
+             exists m, In m (marks 0 toks 0) /\ a = image_orig im + m).
+Proof. exact DbgBreaks.break_relocated. Qed.
+Print Assumptions C11_break_relocated.
+
+(** ... and so the debugger waits, before the instruction executes, whenever the PC stands on a statement that a
+    `.break` marks - under whatever command is pending. *)
+Theorem C11_break_pauses : forall feat src inp toks im sym st env script d st' m,
+  preprocess feat (S (length src)) src 0 nil = Ok toks ->
+  assemble feat nil src = (Ok im, sym) ->
+  from_raw (raw_of_image im) inp = Loaded st ->
+  d_bps d = with_orig (i_bps im) (s_pc st) ->
+  In m (marks 0 toks 0) -> s_pc st' = image_orig im + m ->
+  exists d', d_status d' = WaitForAction /\ next_action env script d st' = wait_loop env script d' st' 0.
+Proof. exact DbgBreaks.break_pauses. Qed.
+Print Assumptions C11_break_pauses.
+
+(** One word per statement of the token list (what bounds the marks). *)
+Theorem C11_one_word_per_statement : forall feat sym0 src toks im sym,
+  preprocess feat (S (length src)) src 0 nil = Ok toks ->
+  assemble feat sym0 src = (Ok im, sym) ->
+  N.of_nat (length (i_words im)) = count_after 0 toks 0.
+Proof. exact AsmCount.assemble_count. Qed.
+Print Assumptions C11_one_word_per_statement.
 
 (** Non-vacuity: a state whose PC carries a breakpoint; a sorted breakpoint list. *)
 Example C11_nonvacuous :
